@@ -242,6 +242,29 @@ async def os_fault_scenario(root, encrypted, command, fault):
     return problems, finished
 
 
+async def stale_temp_scenario(root, encrypted):
+    """the process was killed INSIDE a local-backend upload, between the creation of the temporary file and its rename: the temporary
+    stays behind - next to other objects, and alone in a directory that the upload had just created.  Everything must keep working
+    (list, restore, new snapshot, clean) and no temporary may show up in a listing."""
+    key, model, s1, s2, src = await build_base(root, encrypted)
+    repo = root / 'repo'
+    some_chunk = next(p for p in (repo / 'data').rglob('*') if p.is_file())
+    (some_chunk.parent / (some_chunk.name[:200] + '_k1ll3d.tmp')).write_bytes(b'partial')
+    lonely = repo / 'data' / 'zz' / 'yy'
+    lonely.mkdir(parents=True)
+    (lonely / ('0' * 64 + '-' + '1' * 64 + '_k1ll3d.tmp')).write_bytes(b'')
+    snap_lonely = repo / 'snapshots' / 'zz'
+    snap_lonely.mkdir(parents=True)
+    (snap_lonely / ('2' * 64 + '-' + '3' * 64 + '_k1ll3d.tmp')).write_bytes(b'part')
+    # orphans as the interrupted snapshot leaves them (its chunks are there, its snapshot object is not), so that clean has work to do
+    for p in (repo / 'snapshots').rglob('*'):
+        if p.is_file() and s2.name in p.name:
+            p.unlink()
+    model.pop(s2.name, None)
+    problems = await verify_usable(root, key, model, 'stale_tmp')
+    return problems
+
+
 def main():
     payload = lib.read_payload()
     tier, seed = payload.get('tier', 'quick'), int(payload.get('seed', 0))
@@ -279,6 +302,16 @@ def main():
                         probs = [{'problem': 'harness exception', 'error': f'{type(e).__name__}: {e}'[:300], 'tb': traceback.format_exc()[-500:]}]
                 if probs:
                     failures.append({'id': f'osfault_{command}_{fault}_{int(encrypted)}', 'class': None, 'case': case, 'detail': probs[:3]})
+    for encrypted in (False, True):
+        cases += 1
+        with lib.scratch('vf_c03t_') as root:
+            try:
+                probs = asyncio.run(stale_temp_scenario(root, encrypted))
+            except Exception as e:
+                import traceback
+                probs = [{'problem': 'harness exception', 'error': f'{type(e).__name__}: {e}'[:300], 'tb': traceback.format_exc()[-500:]}]
+        if probs:
+            failures.append({'id': f'stale_tmp_{int(encrypted)}', 'class': None, 'case': {'encrypted': encrypted, 'scenario': 'temporary left by a kill inside an upload'}, 'detail': probs[:3]})
     lib.emit({'status': 'ok', 'cases': cases, 'distinct': cases, 'failures': failures[:10], 'samples': samples,
               'exhaustive': False, 'reproduced': bool(failures)})
 
